@@ -9,7 +9,7 @@ CLAIMED['C01'] = dict(
 	     'C01_dense_eq_set, C01_matches, C01_dtype) -- all lengths, overlapping / palindromic / end-flush occurrences '
 	     'included, by induction. Tie checked every run: gambit.kmers.find_kmers and calc_signature for str / bytes / '
 	     'bytearray / Bio.Seq x both accumulators against model and extracted specification on all sequences over ACGTN up '
-	     'to length 6/7 x k in 1..3 x 7 prefixes, byte-class sequences, and random planted sequences with k up to 32. Syntactic tie for gambit.kmers.index_dtype / nkmers: translated from the Python text by tools/py2v.py on every run and proved equal to the model\'s (C01_tie_index_dtype).',
+	     'to length 6/7 x k in 1..3 x 7 prefixes, byte-class sequences, and random planted sequences with k up to 32. Advisory syntactic tie (theories/Ties, reported as a NOTE when it no longer checks, never a violation: the behavioural correspondence decides) for gambit.kmers.index_dtype / nkmers: translated from the Python text by tools/py2v.py on every run and proved equal to the model\'s (C01_tie_index_dtype).',
 	note='Trusted: Coq kernel; tools/pyx2v.py for the encoders; the hand model of CPython bytes.find / bytes.upper / '
 	     'slicing / set / numpy.flatnonzero in Model/C01.v (validated by the correspondence run, not verified); Biopython '
 	     'Seq; extraction + driver. Input-type independence (str/bytes/bytearray/Seq) is explored, not proved; str inputs '
